@@ -3,6 +3,7 @@ CONSTANTS
   FoldTable <- TrFold
   SingularTable <- TrSingular
   LCamelTable <- TrLCamel
+  UCamelTable <- TrUCamel
 SPECIFICATION TSpec
 INVARIANTS Verdict Stat Done
 CHECK_DEADLOCK FALSE
